@@ -64,7 +64,7 @@ func verifPathByte() byte {
 // of the documented shapes and the path still lies under its API prefix after
 // dot-segment normalisation.
 //
-//verif:harness name=H19a-shape tier=quick bounds="method in {GET, POST, PUT}; path = '/' + {linkip, ddns, x, ''} + up to 7 symbolic bytes over {'/', '.', 'a', 's'} + {'', '/status', 'status'}" reach=proxied-get,proxied-post,refused maxpaths=200000
+//verif:harness name=H19a-shape tier=quick bounds="method in {GET, POST, PUT}; path = {'/', '//', '///'} + {linkip, ddns, x, ''} + up to 7 symbolic bytes over {'/', '.', 'a', 's'} + {'', '/status', 'status'}" reach=proxied-get,proxied-post,refused maxpaths=200000
 func VerifC19Shape() { verifC19Shape(7) }
 
 // VerifC19ShapeLong is the thorough variant.
@@ -81,7 +81,9 @@ func verifC19Shape(maxSym int) {
 		mid[i] = verifPathByte()
 	}
 	suffix := []string{"", "/status", "status"}[verifChoice(3)]
-	p := "/" + first + string(mid) + suffix
+	// the raw request target may start with more than one slash (empty leading segments)
+	lead := []string{"/", "//", "///"}[verifChoice(3)]
+	p := lead + first + string(mid) + suffix
 
 	if !shouldProxy(method, p) {
 		verifReach("refused")
